@@ -455,13 +455,8 @@ def h_random(rng):
         for a in abcs:
             if plains and rng.random() < 0.7:
                 a['virtual'] = [rng.choice(plains)]
-        try:
-            env = build_classes(out)
-            for c in out:
-                make_instance(env[c['name']])
+        if valid_classes(out):
             return out
-        except (TypeError, RuntimeError):
-            continue
     return h_chain(rng)
 
 
@@ -469,12 +464,39 @@ FAMILIES = [h_chain, h_diamond, h_mixin, h_virtual, h_virtual_diamond, h_virtual
             h_builtin, h_random, h_random]
 
 
+def coherent(env, specs):
+    """isinstance / issubclass / __mro__ agree with each other (the Lean side's `hierWF`)"""
+    classes = []
+    for n in BUILTIN_NAMES + GLOM_TYPES + [s['name'] for s in specs]:
+        for k in env[n].__mro__:
+            if k not in classes:
+                classes.append(k)
+    insts = [(c, make_instance(c)) for c in classes]
+    sub = {(c, d): issubclass(c, d) for c in classes for d in classes}
+    for c, x in insts:
+        if not all(isinstance(x, b) for b in c.__mro__):
+            return False
+        for d in classes:
+            if sub[c, d] and sub[d, c] and c is not d:
+                return False
+            idd = isinstance(x, d)
+            for e in classes:
+                if sub[c, d] and sub[d, e] and not sub[c, e]:
+                    return False
+                if idd and sub[d, e] and not isinstance(x, e):
+                    return False
+                m = c.__mro__
+                if d in m and e in m and sub[e, d] and e is not d and not m.index(e) < m.index(d):
+                    return False
+    return True
+
+
 def valid_classes(specs):
     try:
         env = build_classes(specs)
         for c in specs:
             make_instance(env[c['name']])
-        return True
+        return coherent(env, specs)
     except (TypeError, RuntimeError):
         return False
 
